@@ -277,12 +277,51 @@ theorem walk_nest (k : Bytes) (v : Val) : ∀ d, walk (nest k d v) = 2 * d + wal
   | 0 => by simp [nest]
   | d+1 => by simp [nest, walk, walkP, walk_nest k v d]; omega
 
-theorem cost_nest (k : Bytes) : ∀ d, costV (nest k d .null) = d * d + 2 * d + 1
+theorem cost_nest (k : Bytes) : ∀ d, costV true (nest k d .null) = d * d + 2 * d + 1
   | 0 => by simp [nest, costV]
   | d+1 => by
-    simp only [nest, costV, costP, cost_nest k d, walk_nest, walk]
+    simp only [nest, costV, costP, cost_nest k d, walk_nest, walk, if_true]
     simp only [Nat.succ_mul, Nat.mul_succ]
     omega
+
+mutual
+/-- Every value the decoder reads costs one unit, every key one unit, every advance one unit: with the
+constant-time advance the cost is at most three units per node. -/
+theorem costV_le_walk : ∀ v : Val, costV false v ≤ 3 * walk v
+  | .obj ps => by simp only [costV, walk]; have := costP_le_walk ps; omega
+  | .ecma _ ps => by simp only [costV, walk]; have := costP_le_walk ps; omega
+  | .strict ps => by simp only [costV, walk]; have := costP_le_walk ps; omega
+  | .num _ => by simp [costV, walk]
+  | .bool _ => by simp [costV, walk]
+  | .str _ => by simp [costV, walk]
+  | .null => by simp [costV, walk]
+  | .undef => by simp [costV, walk]
+  | .eof => by simp [costV, walk]
+theorem costP_le_walk : ∀ ps : Props, costP false ps ≤ 3 * walkP ps
+  | .nil => by simp [costP, walkP]
+  | .cons _ v tl => by
+    simp only [costP, walkP, Bool.false_eq_true, if_false]
+    have := costV_le_walk v; have := costP_le_walk tl; omega
+end
+
+mutual
+/-- Each visited value occupies at least one byte and each key at least two. -/
+theorem walk_le_size : ∀ v : Val, walk v ≤ size v
+  | .obj ps => by simp only [walk, size]; have := walkP_le_size ps; omega
+  | .ecma _ ps => by simp only [walk, size]; have := walkP_le_size ps; omega
+  | .strict ps => by simp only [walk, size]; have := walkP_le_size ps; omega
+  | .num _ => by simp [walk, size]
+  | .bool _ => by simp [walk, size]
+  | .str _ => by simp [walk, size]
+  | .null => by simp [walk, size]
+  | .undef => by simp [walk, size]
+  | .eof => by simp [walk, size]
+theorem walkP_le_size : ∀ ps : Props, walkP ps ≤ sizeP ps
+  | .nil => by simp [walkP, sizeP]
+  | .cons k v tl => by
+    simp only [walkP, sizeP, utf8Size]
+    have := walk_le_size v; have := walkP_le_size tl; omega
+end
 
 theorem size_nest (k : Bytes) : ∀ d, size (nest k d .null) = (6 + k.length) * d + 1
   | 0 => by simp [nest, size]
